@@ -199,6 +199,8 @@ def _pool_worker(fn, init, tq, rq):
             init()
     except BaseException:
         rq.put(("initfail", None, traceback.format_exc()))
+        rq.close()
+        rq.join_thread()
         os._exit(3)
     while True:
         item = tq.get()
@@ -210,6 +212,8 @@ def _pool_worker(fn, init, tq, rq):
             out = fn(task)
         except BaseException:
             rq.put(("error", idx, traceback.format_exc()))
+            rq.close()
+            rq.join_thread()
             os._exit(4)
         poisoned = isinstance(out, dict) and out.get("_poisoned")
         if os.environ.get("VERIF_DEBUG_POOL"):
